@@ -36,7 +36,7 @@ func goid() int64 {
 
 type umsg struct {
 	id   int
-	slow bool
+	slow int  // the handler takes this many ms of virtual time (0: none)
 	pan  bool // the handler panics: run() recovers, calls EscalateFailure and returns
 }
 // ubatch: an actor.MessageBatch — the mailbox posts its elements first, then the batch message itself
@@ -49,7 +49,7 @@ func (b *ubatch) GetMessages() []interface{} { return b.elems }
 
 type smsg struct {
 	id   int
-	slow bool
+	slow int
 	pan  bool
 }
 
@@ -63,7 +63,7 @@ type thread struct {
 	started bool // consumer: fn() entered
 	curMsg  int  // message about to be pushed (posters)
 	curSK   string
-	curSlow bool
+	curSlow int
 	curPan  bool
 	curBt   string // "b<n>" / "e<n>": this push is a batch message whose n elements were the previous n pushes
 	flat    []pmsg // posters: every push this thread will perform, in order (batch elements, then the batch itself)
@@ -87,6 +87,7 @@ type ctl struct {
 	escAllU []int
 	escAllS []int
 	runStart time.Time // virtual time at which the current run() started (run()'s beginTime)
+	t0       time.Time // virtual time at the start of the case (ops carry now= relative to it)
 }
 
 // run()'s recover path logs the invoker with %v: keep that short (and away from the controller's fields)
@@ -168,8 +169,8 @@ func (c *ctl) InvokeSystemMessage(m interface{}) {
 		c.invLog = append(c.invLog, fmt.Sprintf("s:%d", s.id))
 		c.dlvS = append(c.dlvS, s.id)
 		c.mu.Unlock()
-		if s.slow {
-			time.Sleep(12 * time.Millisecond) // a slow system handler also exhausts the frame budget
+		if s.slow > 0 {
+			time.Sleep(time.Duration(s.slow) * time.Millisecond) // a slow system handler also consumes the frame budget
 		}
 		if s.pan {
 			panic("system handler panics")
@@ -192,8 +193,8 @@ func (c *ctl) InvokeUserMessage(m interface{}) {
 		c.invLog = append(c.invLog, fmt.Sprintf("u:%d", u.id))
 		c.dlvU = append(c.dlvU, u.id)
 		c.mu.Unlock()
-		if u.slow {
-			time.Sleep(12 * time.Millisecond) // past the 10 ms frame budget (virtual time)
+		if u.slow > 0 {
+			time.Sleep(time.Duration(u.slow) * time.Millisecond) // virtual time: 12/25 ms are past the default 10 ms frame budget, 3 ms is within it
 		}
 		if u.pan {
 			panic("user handler panics")
@@ -240,8 +241,30 @@ func (b *bystander) InvokeUserMessage(m interface{}) {
 }
 func (b *bystander) EscalateFailure(reason interface{}, message interface{}) {}
 
-var producer = mailbox.Producer(10)
+// one producer per configured frame budget (Producer(ms); 0 = "use the default", which is 10 ms), shared by all
+// cases with that budget and by their bystander mailboxes — as one Props spawning many actors does
+var producers = map[int64]actor.MailboxProducer{}
+
+func producerFor(ms int64) actor.MailboxProducer {
+	p := producers[ms]
+	if p == nil {
+		p = mailbox.Producer(ms)
+		producers[ms] = p
+	}
+	return p
+}
+
+// budgetOf: what Producer(ms) is documented to mean, in ns (only used for the generator histogram; the MODEL decides
+// from the now= stamps whether the budget is exhausted at an iteration)
+func budgetOf(ms int64) time.Duration {
+	if ms == 0 {
+		ms = 10
+	}
+	return time.Duration(ms) * time.Millisecond
+}
+
 var caseNo int
+var neverQuiet bool // a case did not reach quiescence within the step limit: the run ends there
 
 // suspend / resume carry ids too: wrap by remembering the order they were pushed
 type poster struct {
@@ -251,7 +274,7 @@ type poster struct {
 }
 type pmsg struct {
 	id    int
-	slow  bool
+	slow  int    // handler duration, ms of virtual time
 	pan   bool   // handler panics
 	sk    string // n s r (system)
 	batch []pmsg // user: this message is a MessageBatch with these elements (posted first by the mailbox)
@@ -268,7 +291,7 @@ func flatten(ms []pmsg) []pmsg {
 }
 
 var cpcOf = map[string]string{"cons.take": "wait", "run.iter": "iter", "bp.cas": "bpcas", "run.pops": "pops", "run.lsusp": "lsusp",
-	"run.popu": "popu", "pm.idle": "a1", "pm.lsys": "r0", "pm.luser": "r1", "pm.lpaused": "r2", "pm.decide": "r3",
+	"run.popu": "popu", "uq.empty": "ret", "pm.idle": "a1", "pm.lsys": "r0", "pm.luser": "r1", "pm.lpaused": "r2", "pm.decide": "r3",
 	"sc.loadp": "cl", "sc.cas": "ck", "sc.disp": "cd"}
 
 // runners = processMessages runs that exist: handed to the dispatcher and not taken yet, about to be handed over
@@ -280,7 +303,7 @@ func (c *ctl) state(inv, esc string) string {
 	if c.cons != nil && c.cons.point != "cons.take" {
 		cpc = cpcOf[c.cons.point]
 		switch c.cons.point {
-		case "run.iter", "bp.cas", "run.pops", "run.lsusp", "run.popu", "pm.idle":
+		case "run.iter", "bp.cas", "run.pops", "run.lsusp", "run.popu", "uq.empty", "pm.idle":
 			runners++
 		}
 	}
@@ -301,8 +324,12 @@ func ids(l []int) string {
 }
 
 // runCase executes one case. `choose` picks the next thread among the parked ones.
-func runCase(h *hx.T, tput int, posters []poster, choose func(c *ctl, parked []*thread, step int) *thread) {
-	c := &ctl{byGoid: map[int64]*thread{}, tput: tput}
+func runCase(h *hx.T, tput int, bud int64, tick time.Duration, posters []poster, choose func(c *ctl, parked []*thread, step int) *thread) {
+	if neverQuiet {
+		return
+	}
+	c := &ctl{byGoid: map[int64]*thread{}, tput: tput, t0: time.Now()}
+	producer := producerFor(bud)
 	// a bystander mailbox made by the SAME producer (one Props spawning several actors): a message
 	// is posted to it now and its run is deferred until this case is over; mailboxes must not share state
 	caseNo++
@@ -315,9 +342,11 @@ func runCase(h *hx.T, tput int, posters []poster, choose func(c *ctl, parked []*
 	mailbox.VerifYield = c.yield
 	mb := producer().(*mailbox.SmoothFrameMailbox)
 	mb.RegisterHandlers(c, c)
+	mb.VerifSplitUserPop() // yield point "uq.empty" between an empty Pop of the user queue and run()'s return
 	c.mb = mb
 	c.startConsumer()
-	h.Emit(fmt.Sprintf("reset t=%d", tput), "ok")
+	// b = the argument of mailbox.Producer (ms; 0 = default), tick = ns of virtual time that pass before every granted step
+	h.Emit(fmt.Sprintf("reset t=%d b=%d tick=%d", tput, bud, tick.Nanoseconds()), "ok")
 	// system messages of kind suspend/resume are consumed by the mailbox itself; their
 	// ids are reported from the push order (FIFO of the system queue is what is checked)
 	var sysOrder []pmsg
@@ -372,11 +401,14 @@ func runCase(h *hx.T, tput int, posters []poster, choose func(c *ctl, parked []*
 		sort.Slice(parked, func(i, j int) bool { return parked[i].name < parked[j].name })
 		th := choose(c, parked, step)
 		pt := th.point
+		if tick > 0 {
+			time.Sleep(tick) // the clock advances between any two steps (all goroutines are parked: nothing else happens)
+		}
 		op := fmt.Sprintf("step k=%s pt=%s th=%s", th.kind, pt, th.name)
 		sysPopBefore := len(sysOrder)
 		_ = sysPopBefore
 		if pt == "pu.push" {
-			op += fmt.Sprintf(" msg=%d slow=%d", th.curMsg, hx.B2i(th.curSlow))
+			op += fmt.Sprintf(" msg=%d slow=%d", th.curMsg, th.curSlow)
 			if th.curPan {
 				op += " pan=1"
 			}
@@ -385,25 +417,27 @@ func runCase(h *hx.T, tput int, posters []poster, choose func(c *ctl, parked []*
 			}
 		}
 		if pt == "ps.push" {
-			op += fmt.Sprintf(" msg=%d sk=%s slow=%d", th.curMsg, th.curSK, hx.B2i(th.curSlow))
+			op += fmt.Sprintf(" msg=%d sk=%s slow=%d", th.curMsg, th.curSK, th.curSlow)
 			if th.curPan {
 				op += " pan=1"
 			}
 			sysOrder = append(sysOrder, pmsg{id: th.curMsg, sk: th.curSK})
 		}
 		if pt == "cons.take" {
-			c.runStart = time.Now() // run() reads beginTime right after being taken; virtual time stands still meanwhile
+			// run() reads beginTime right after being taken; virtual time stands still during a step
+			c.runStart = time.Now()
+			op += fmt.Sprintf(" now=%d", time.Since(c.t0).Nanoseconds())
 		}
 		if pt == "run.iter" {
-			// the frame budget, decided by the CLOCK (not by where the implementation goes next): run() compares
-			// NowNano()-beginTime with maxProcessCost = 10 ms (Producer(10)); the model starts a pause / takes the
-			// Gosched branch exactly when this says so
-			over := 0
-			if time.Since(c.runStart) > 10*time.Millisecond {
-				over = 1
+			// the op carries what the CLOCK reads (ns since the case began), nothing about where the implementation goes
+			// next: the MODEL computes cost = now - beginTime, compares it with the budget that Producer(b) means and
+			// predicts pause / Gosched branch / carry on
+			op += fmt.Sprintf(" now=%d", time.Since(c.t0).Nanoseconds())
+			if el := time.Since(c.runStart); el > budgetOf(bud) {
 				h.Count("gen.budget-exhausted")
+			} else if el > 0 {
+				h.Count("gen.budget-partly-used")
 			}
-			op += fmt.Sprintf(" over=%d", over)
 		}
 		c.mu.Lock()
 		c.invLog = nil
@@ -482,7 +516,46 @@ func runCase(h *hx.T, tput int, posters []poster, choose func(c *ctl, parked []*
 		}
 		h.Emit("bystander", obs)
 	}()
+	if quiet == 0 {
+		neverQuiet = true
+	}
 	h.Emit("quiesce", fmt.Sprintf("quiet=%d st=%d um=%d sm=%d susp=%d paused=%d du=%s ds=%s esc=%s", quiet, st, um, sm, susp, paused, ids(c.dlvU), ids(c.dlvS), ids(append(append([]int(nil), c.escAllU...), c.escAllS...))))
+}
+
+// genBudget: the frame budget the case's mailbox is produced with (argument of mailbox.Producer, ms): the value
+// service/factory.go uses (20), "use the default" (0, documented as 10 ms), the default itself, and small budgets
+// that handlers of 3 ms reach or do not quite reach
+func genBudget(h *hx.T) int64 {
+	b := []int64{10, 10, 0, 0, 0, 20, 20, 1, 2, 3, 5}[h.R.Intn(11)]
+	h.Count(fmt.Sprintf("gen.budget.%d", b))
+	return b
+}
+
+// genTick: how much virtual time passes before every granted step: half of the cases run on a clock that only handlers
+// and the helper's sleep advance (the old regime), the others on a clock that moves on between any two steps (as a
+// real one does) — never by more than the smallest budget per step, so that the first iteration of a run that is
+// taken and continued at once is always within its budget
+func genTick(h *hx.T) time.Duration {
+	t := []time.Duration{0, 0, 0, 0, time.Nanosecond, time.Microsecond, 100 * time.Microsecond, 300 * time.Microsecond}[h.R.Intn(8)]
+	h.Count(fmt.Sprintf("gen.tick.%s", t))
+	return t
+}
+
+// genSlow: handler durations in ms of virtual time: 0 mostly; 12 and 25 exceed the default budget at once, 3 needs
+// several messages (or a small budget)
+func genSlow(h *hx.T, oneIn int) int {
+	if h.R.Intn(oneIn) != 0 {
+		return 0
+	}
+	d := []int{12, 12, 3, 3, 25}[h.R.Intn(5)]
+	h.Count(fmt.Sprintf("gen.handler-ms.%d", d))
+	return d
+}
+func genSlowIf(h *hx.T, cond bool, oneIn int) int {
+	if !cond {
+		return 0
+	}
+	return genSlow(h, oneIn)
 }
 
 // genThroughput: what the dispatcher answers to Throughput(); small values make run() take its `i > t` branch in
@@ -531,7 +604,7 @@ func genPosters(h *hx.T) []poster {
 			h.Count("gen.ringgrowth")
 		}
 		for k := 0; k < n; k++ {
-			p.msgs = append(p.msgs, pmsg{id: (i+1)*1000 + k + 1, slow: h.R.Intn(6) == 0, pan: panics && h.R.Intn(4) == 0})
+			p.msgs = append(p.msgs, pmsg{id: (i+1)*1000 + k + 1, slow: genSlow(h, 6), pan: panics && h.R.Intn(4) == 0})
 		}
 		if n >= 2 && n <= 6 && h.R.Intn(5) == 0 {
 			// a MessageBatch: the first 1..n-1 messages become its elements, the batch message itself follows them
@@ -559,12 +632,12 @@ func genPosters(h *hx.T) []poster {
 		kinds := []string{"n", "s", "r", "n", "s", "r", "r"}
 		for k := 0; k < n; k++ {
 			sk := kinds[h.R.Intn(len(kinds))]
-			p.msgs = append(p.msgs, pmsg{id: 9000 + k + 1, sk: sk, slow: sk == "n" && h.R.Intn(3) == 0, pan: sk == "n" && panics && h.R.Intn(3) == 0})
+			p.msgs = append(p.msgs, pmsg{id: 9000 + k + 1, sk: sk, slow: genSlowIf(h, sk == "n", 3), pan: sk == "n" && panics && h.R.Intn(3) == 0})
 		}
 		if h.R.Intn(6) == 0 {
 			// directed: suspended, then a slow system handler starts a smoothing pause, then resume —
 			// the pause helper's wake-up is what must bring the consumer back
-			p.msgs = []pmsg{{id: 9001, sk: "s"}, {id: 9002, sk: "n", slow: true}, {id: 9003, sk: "r"}}
+			p.msgs = []pmsg{{id: 9001, sk: "s"}, {id: 9002, sk: "n", slow: 12}, {id: 9003, sk: "r"}}
 			n = 3
 			h.Count("gen.suspend-slowsys-resume")
 		}
@@ -603,7 +676,7 @@ func chooser(h *hx.T, mode int) func(c *ctl, parked []*thread, step int) *thread
 				if th.kind == "c" {
 					cons = append(cons, th)
 					switch th.point {
-					case "pm.lsys", "pm.luser", "pm.lpaused", "pm.decide", "pm.idle":
+					case "pm.lsys", "pm.luser", "pm.lpaused", "pm.decide", "pm.idle", "uq.empty":
 						inWindow = true
 					}
 				} else {
@@ -633,7 +706,7 @@ func chooser(h *hx.T, mode int) func(c *ctl, parked []*thread, step int) *thread
 			}
 			switch phase {
 			case 0:
-				if cons != nil && cons.point == "pm.idle" && len(posters) > 0 {
+				if cons != nil && (cons.point == "pm.idle" || cons.point == "uq.empty") && len(posters) > 0 {
 					victim = posters[h.R.Intn(len(posters))]
 					budget = 1 + h.R.Intn(4)
 					if h.R.Intn(2) == 0 {
@@ -708,6 +781,8 @@ func chooser(h *hx.T, mode int) func(c *ctl, parked []*thread, step int) *thread
 func replayCases(h *hx.T, ops []string) {
 	var cases [][]string
 	var tputs []int
+	var buds []int64
+	var ticks []time.Duration
 	for _, op := range ops {
 		if strings.HasPrefix(op, "reset") {
 			cases = append(cases, nil)
@@ -716,11 +791,22 @@ func replayCases(h *hx.T, ops []string) {
 				t = hx.KVInt(hx.Words(op), "t")
 			}
 			tputs = append(tputs, t)
+			b, tk := 10, 0
+			if _, ok := hx.KV(hx.Words(op), "b"); ok {
+				b = hx.KVInt(hx.Words(op), "b")
+			}
+			if _, ok := hx.KV(hx.Words(op), "tick"); ok {
+				tk = hx.KVInt(hx.Words(op), "tick")
+			}
+			buds = append(buds, int64(b))
+			ticks = append(ticks, time.Duration(tk))
 			continue
 		}
 		if len(cases) == 0 {
 			cases = append(cases, nil)
 			tputs = append(tputs, 99)
+			buds = append(buds, 10)
+			ticks = append(ticks, 0)
 		}
 		cases[len(cases)-1] = append(cases[len(cases)-1], op)
 	}
@@ -742,7 +828,7 @@ func replayCases(h *hx.T, ops []string) {
 				order = append(order, name)
 			}
 			sk, _ := hx.KV(ws, "sk")
-			m := pmsg{id: hx.KVInt(ws, "msg"), slow: hx.KVInt(ws, "slow") == 1, sk: sk, pan: hx.KVInt(ws, "pan") == 1}
+			m := pmsg{id: hx.KVInt(ws, "msg"), slow: hx.KVInt(ws, "slow"), sk: sk, pan: hx.KVInt(ws, "pan") == 1}
 			if bt, ok := hx.KV(ws, "bt"); ok && len(bt) >= 2 {
 				if n, err := strconv.Atoi(bt[1:]); err == nil && n <= len(p.msgs) {
 					m.bk = bt[:1]
@@ -757,7 +843,7 @@ func replayCases(h *hx.T, ops []string) {
 			ps = append(ps, *byName[n])
 		}
 		i := 0
-		runCase(h, tputs[ci], ps, func(c *ctl, parked []*thread, step int) *thread {
+		runCase(h, tputs[ci], buds[ci], ticks[ci], ps, func(c *ctl, parked []*thread, step int) *thread {
 			for i < len(cs) {
 				ws := hx.Words(cs[i])
 				i++
@@ -798,12 +884,12 @@ func TestRun(t *testing.T) {
 		for i := 0; i < n; i++ {
 			if h.R.Intn(40) == 0 {
 				h.Count("schedule.mode5")
-				runCase(h, 99, genBacklog(h), chooser(h, 5))
+				runCase(h, 99, 20, 0, genBacklog(h), chooser(h, 5))
 				continue
 			}
 			mode := h.R.Intn(5)
 			h.Count(fmt.Sprintf("schedule.mode%d", mode))
-			runCase(h, genThroughput(h), genPosters(h), chooser(h, mode))
+			runCase(h, genThroughput(h), genBudget(h), genTick(h), genPosters(h), chooser(h, mode))
 		}
 		h.Close()
 		syscall.Exit(0)
